@@ -164,7 +164,7 @@ func specshareComponent(g *G, n int, opts map[string]string) *Out {
 			// every other case: actions and guards that delete, overwrite and replace permanent bindings, each walker
 			// with its own values for them (what one machine is given back must never be another machine's)
 			saved := g.mode
-			if len(todo)%2 == 1 {
+			if len(todo)%2 == 1 || opts["perm"] != "" {
 				g.mode = "c18"
 			}
 			c := &shCase{Spec: g.specNoLoop(opts)}
